@@ -10,6 +10,7 @@ import (
 	"sync/atomic"
 	"time"
 
+	"github.com/blinklabs-io/gouroboros/protocol"
 	"pgregory.net/rapid"
 
 	"verif/harness/internal/rawpeer"
@@ -244,6 +245,30 @@ func setProcs(rt *rapid.T) (int, func()) {
 	return n, func() { runtime.GOMAXPROCS(old) }
 }
 
+// ---- real state maps ---------------------------------------------------------------
+
+// stripTimeouts copies a state map with all state timeouts removed (timeouts are
+// C14's subject; a loaded machine must not turn them into noise here). Limits,
+// agencies and transitions are unchanged.
+func stripTimeouts(sm protocol.StateMap) protocol.StateMap {
+	out := protocol.StateMap{}
+	for s, e := range sm {
+		e.Timeout = 0
+		e.TimeoutFunc = nil
+		out[s] = e
+	}
+	return out
+}
+
+func stateByName(sm protocol.StateMap, name string) protocol.State {
+	for s := range sm {
+		if s.Name == name {
+			return s
+		}
+	}
+	panic("no state " + name)
+}
+
 // ---- misc -------------------------------------------------------------------------
 
 func goroutineDump() string {
@@ -279,6 +304,75 @@ func waitUntil(d time.Duration, cond func() bool) bool {
 		}
 		time.Sleep(sleep)
 		if sleep < 2*time.Millisecond {
+			sleep *= 2
+		}
+	}
+}
+
+// A stall is declared only when `patience` elapsed without any change of the
+// case's progress counter (bytes moved, messages handled, ...): a slow or loaded
+// machine delays a verdict, it cannot produce one.
+type progressFn func() int64
+
+// stallChan returns a channel that is closed once progress() has not changed
+// for patience; stop releases the watcher.
+func stallChan(patience time.Duration, progress progressFn) (<-chan struct{}, func()) {
+	ch := make(chan struct{})
+	quit := make(chan struct{})
+	var once sync.Once
+	go func() {
+		last := int64(-1)
+		if progress != nil {
+			last = progress()
+		}
+		deadline := time.Now().Add(patience)
+		tick := patience / 40
+		if tick > 200*time.Millisecond {
+			tick = 200 * time.Millisecond
+		}
+		if tick < time.Millisecond {
+			tick = time.Millisecond
+		}
+		for {
+			select {
+			case <-quit:
+				return
+			case <-time.After(tick):
+			}
+			if progress != nil {
+				if cur := progress(); cur != last {
+					last = cur
+					deadline = time.Now().Add(patience)
+				}
+			}
+			if time.Now().After(deadline) {
+				close(ch)
+				return
+			}
+		}
+	}()
+	return ch, func() { once.Do(func() { close(quit) }) }
+}
+
+// waitCond polls cond until it holds; gives up when abort is closed or no
+// progress was made for patience.
+func waitCond(patience time.Duration, abort <-chan struct{}, progress progressFn, cond func() bool) bool {
+	stall, stop := stallChan(patience, progress)
+	defer stop()
+	sleep := 20 * time.Microsecond
+	for {
+		if cond() {
+			return true
+		}
+		select {
+		case <-abort:
+			return cond()
+		case <-stall:
+			return cond()
+		default:
+		}
+		time.Sleep(sleep)
+		if sleep < time.Millisecond {
 			sleep *= 2
 		}
 	}
